@@ -54,7 +54,7 @@ var (
 	}{
 		{"", 0, 1}, {"?transport=udp", stun.ProtoTypeUDP, 1}, {"?transport=tcp", stun.ProtoTypeTCP, 1},
 		{"?transport=xyz", 0, 0}, {"?transport=", 0, 0}, {"?transport=udp&x=1", 0, 0}, {"?x=1", 0, 0}, {"?x", 0, 0},
-		{"?transport=sctp", 0, 0},
+		{"?transport=sctp", 0, 0}, {"?%zz", 0, 0}, {"?a;b", 0, 0}, {"?transport=udp;x", 0, 0}, {"?%zz=1&transport=udp", 0, 0},
 		{"?transport=udp&transport=tcp", 0, -1}, {"?", 0, -1}, {"?&", 0, -1}, {"?transport=UDP", 0, -1},
 	}
 )
@@ -88,6 +88,8 @@ func c17Build(si, hi, pi, qi int) uriCase {
 		case "":
 		case "?", "?&":
 			merge(-1, "separator-only query")
+		case "?;":
+			merge(0, "stun/stuns with a query")
 		default:
 			merge(0, "stun/stuns with a query")
 		}
